@@ -4,6 +4,8 @@ import ProfiVerif.Driver.Gap
 import ProfiVerif.Driver.Diag
 import ProfiVerif.Driver.Apps
 import ProfiVerif.Driver.Prm
+import ProfiVerif.Driver.Station
+import ProfiVerif.Driver.StationOracle
 open PV PV.Driver
 
 /-
@@ -17,6 +19,13 @@ def main (args : List String) : IO UInt32 := do
   match args with
   | ["model", "codec"] => engineLoop (fun (_ : Unit) l => ((), (stepCodec (splitWords l)).getD "bad-op")) () inp out; return 0
   | ["model", "decoder"] => engineLoop (fun (_ : Unit) l => ((), (stepDecoder (splitWords l)).getD "bad-op")) () inp out; return 0
+  | ["oracle", "C01st", o, i] => oracleLoop (oracleStation "C01") {} o i
+  | ["oracle", "C05st", o, i] => oracleLoop (oracleStation "C05") {} o i
+  | ["oracle", "C11st", o, i] => oracleLoop (oracleStation "C11") {} o i
+  | ["oracle", "C12st", o, i] => oracleLoop (oracleStation "C12") {} o i
+  | ["oracle", "C13st", o, i] => oracleLoop (oracleStation "C13") {} o i
+  | ["oracle", "C15st", o, i] => oracleLoop (oracleStation "C15") {} o i
+  | ["model", "station"] => engineLoop stepStation none inp out; return 0
   | ["model", "prm"] => engineLoop stepPrm none inp out; return 0
   | ["oracle", "C20", o, i] => oracleLoop oracleC20 (none, 0) o i
   | ["model", "phyrx"] => engineLoop stepPhyRx [] inp out; return 0
